@@ -1,8 +1,16 @@
 //! Per-property request answering, case generation and implementation-vs-property sweeps.
 use crate::{fmt_opt, guarded, join, Cases, Sweep};
 use ckc_rs::cards::binary_card::{BinaryCard, BC64};
+use ckc_rs::cards::five::Five;
+use ckc_rs::cards::four::Four;
+use ckc_rs::cards::seven::Seven;
+use ckc_rs::cards::six::Six;
+use ckc_rs::cards::three::Three;
+use ckc_rs::cards::two::Two;
+use ckc_rs::cards::{HandRanker, HandValidator, Permutator};
 use ckc_rs::deck::Deck;
-use ckc_rs::{CKCNumber, CardNumber, CardRank, CardSuit, PokerCard, Shifty};
+use ckc_rs::hand_rank::HandRank;
+use ckc_rs::{CKCNumber, CardNumber, CardRank, CardSuit, HandError, PokerCard, Shifty};
 use ckc_tools::*;
 use strum::IntoEnumIterator;
 
@@ -16,6 +24,169 @@ fn suit_of_disc(d: u64) -> Option<CardSuit> {
 fn chen2_exact(p: f32) -> String {
     let d = p * 2.0;
     if d.fract() == 0.0 && d.abs() < 1000.0 { format!("{}", d as i64) } else { format!("inexact({p})") }
+}
+
+
+/// A hand container of any size, dispatching to the crate's six types.
+#[derive(Clone, Copy)]
+pub enum H {
+    T2(Two),
+    T3(Three),
+    T4(Four),
+    T5(Five),
+    T6(Six),
+    T7(Seven),
+}
+macro_rules! each {
+    ($self:expr, $h:ident => $e:expr) => {
+        match $self {
+            H::T2($h) => $e,
+            H::T3($h) => $e,
+            H::T4($h) => $e,
+            H::T5($h) => $e,
+            H::T6($h) => $e,
+            H::T7($h) => $e,
+        }
+    };
+}
+impl H {
+    pub fn mk(ws: &[u32]) -> Option<H> {
+        Some(match ws.len() {
+            2 => H::T2(Two::from([ws[0], ws[1]])),
+            3 => H::T3(Three::from([ws[0], ws[1], ws[2]])),
+            4 => H::T4(Four::from([ws[0], ws[1], ws[2], ws[3]])),
+            5 => H::T5(Five::from([ws[0], ws[1], ws[2], ws[3], ws[4]])),
+            6 => H::T6(Six::from([ws[0], ws[1], ws[2], ws[3], ws[4], ws[5]])),
+            7 => H::T7(Seven::from([ws[0], ws[1], ws[2], ws[3], ws[4], ws[5], ws[6]])),
+            _ => return None,
+        })
+    }
+    pub fn vec(&self) -> Vec<u32> {
+        each!(self, h => h.to_arr().to_vec())
+    }
+    pub fn are_unique(&self) -> bool {
+        each!(self, h => h.are_unique())
+    }
+    pub fn contain_blank(&self) -> bool {
+        each!(self, h => h.contain_blank())
+    }
+    pub fn is_corrupt(&self) -> bool {
+        each!(self, h => h.is_corrupt())
+    }
+    pub fn is_valid(&self) -> bool {
+        each!(self, h => h.is_valid())
+    }
+    pub fn sorted(&self) -> Vec<u32> {
+        each!(self, h => h.sort().to_arr().to_vec())
+    }
+    pub fn sorted_in_place(&self) -> Vec<u32> {
+        match *self {
+            H::T2(mut h) => { h.sort_in_place(); h.to_arr().to_vec() }
+            H::T3(mut h) => { h.sort_in_place(); h.to_arr().to_vec() }
+            H::T4(mut h) => { h.sort_in_place(); h.to_arr().to_vec() }
+            H::T5(mut h) => { h.sort_in_place(); h.to_arr().to_vec() }
+            H::T6(mut h) => { h.sort_in_place(); h.to_arr().to_vec() }
+            H::T7(mut h) => { h.sort_in_place(); h.to_arr().to_vec() }
+        }
+    }
+    pub fn shifted(&self) -> Vec<u32> {
+        each!(self, h => h.shift_suit().to_arr().to_vec())
+    }
+    pub fn iter_vec(&self) -> Vec<u32> {
+        each!(self, h => h.iter().copied().collect())
+    }
+    pub fn bc(&self) -> u64 {
+        match *self {
+            H::T2(h) => <BinaryCard as BC64>::from_two(h),
+            H::T3(h) => <BinaryCard as BC64>::from_three(h),
+            H::T4(h) => <BinaryCard as BC64>::from_four(h),
+            H::T5(h) => <BinaryCard as BC64>::from_five(h),
+            H::T6(h) => <BinaryCard as BC64>::from_six(h),
+            H::T7(h) => <BinaryCard as BC64>::from_seven(h),
+        }
+    }
+    /// named accessors first(), second(), ...
+    pub fn named(&self) -> Vec<u32> {
+        match *self {
+            H::T2(h) => vec![h.first(), h.second()],
+            H::T3(h) => vec![h.first(), h.second(), h.third()],
+            H::T4(h) => vec![h.first(), h.second(), h.third(), h.forth()],
+            H::T5(h) => vec![h.first(), h.second(), h.third(), h.forth(), h.fifth()],
+            H::T6(h) => vec![h.first(), h.second(), h.third(), h.forth(), h.fifth(), h.sixth()],
+            H::T7(h) => vec![h.first(), h.second(), h.third(), h.forth(), h.fifth(), h.sixth(), h.seventh()],
+        }
+    }
+    /// the setter whose NAME is the (k+1)-th ordinal
+    pub fn set_named(&mut self, k: u64, x: u32) -> bool {
+        macro_rules! setters {
+            ($h:ident, $($i:literal => $m:ident),*) => { match k { $( $i => { $h.$m(x); true } )* _ => false } };
+        }
+        match self {
+            H::T2(h) => setters!(h, 0 => set_first, 1 => set_second),
+            H::T3(h) => setters!(h, 0 => set_first, 1 => set_second, 2 => set_third),
+            H::T4(h) => setters!(h, 0 => set_first, 1 => set_second, 2 => set_third, 3 => set_forth),
+            H::T5(h) => setters!(h, 0 => set_first, 1 => set_second, 2 => set_third, 3 => set_forth, 4 => set_fifth),
+            H::T6(h) => setters!(h, 0 => set_first, 1 => set_second, 2 => set_third, 3 => set_forth, 4 => set_fifth, 5 => set_sixth),
+            H::T7(h) => setters!(h, 0 => set_first, 1 => set_second, 2 => set_third, 3 => set_forth, 4 => set_fifth, 5 => set_sixth, 6 => set_seventh),
+        }
+    }
+}
+
+fn b(x: bool) -> String {
+    (x as u8).to_string()
+}
+fn rank_str(r: HandRank) -> String {
+    format!("{} {} {}", r.value, r.name as u64, r.class as u64)
+}
+fn ord_code(o: std::cmp::Ordering) -> u8 {
+    match o {
+        std::cmp::Ordering::Less => 0,
+        std::cmp::Ordering::Equal => 1,
+        std::cmp::Ordering::Greater => 2,
+    }
+}
+fn u32s(args: &[u64]) -> Option<Vec<u32>> {
+    args.iter().map(|x| u32::try_from(*x).ok()).collect()
+}
+fn text_of(cps: &[u64]) -> Option<String> {
+    cps.iter().map(|c| u32::try_from(*c).ok().and_then(char::from_u32)).collect()
+}
+fn leak(s: String) -> &'static str {
+    Box::leak(s.into_boxed_str())
+}
+fn value_hand<R: HandRanker>(h: &R) -> String {
+    fmt_opt(guarded(|| {
+        let (v, f) = h.hand_rank_value_and_hand();
+        format!("{v} {}", join(f.to_arr()))
+    }))
+}
+
+/// `TryFrom<&'static str>` of the container of size n, plus (n = 5) `parse::five_from_index`
+fn parse_hand(n: u64, text: &str) -> String {
+    let st: &'static str = leak(text.to_string());
+    fn show<const N: usize>(r: Result<[u32; N], HandError>) -> String {
+        match r {
+            Ok(a) => join(a),
+            Err(HandError::InvalidIndex) => "none".into(),
+            Err(e) => format!("err({e:?})"),
+        }
+    }
+    match n {
+        2 => show(Two::try_from(st).map(|h| h.to_arr())),
+        3 => show(Three::try_from(st).map(|h| h.to_arr())),
+        4 => show(Four::try_from(st).map(|h| h.to_arr())),
+        5 => {
+            let a = show(Five::try_from(st).map(|h| h.to_arr()));
+            let b = match ckc_rs::parse::five_from_index(text) {
+                Some(a) => join(a),
+                None => "none".into(),
+            };
+            if a == b { a } else { format!("Five::try_from={a};five_from_index={b}") }
+        }
+        6 => show(Six::try_from(st).map(|h| h.to_arr())),
+        7 => show(Seven::try_from(st).map(|h| h.to_arr())),
+        _ => "bad-request".into(),
+    }
 }
 
 /// The crate's answer to one driver request.
@@ -64,6 +235,175 @@ pub fn answer(req: &str) -> String {
         },
         ("deck", [i]) => fmt_opt(guarded(|| Deck::get(*i as usize))),
         ("frombc", [x]) => fmt_opt(guarded(|| <CKCNumber as PokerCard>::from_binary_card(*x))),
+        ("find", [k]) => fmt_opt(guarded(|| Five::find_in_products(*k as usize))),
+        ("ev5", ws) if ws.len() == 5 => {
+            let Some(ws) = u32s(ws) else { return "bad-request".into() };
+            let arr = [ws[0], ws[1], ws[2], ws[3], ws[4]];
+            let h = Five::from(arr);
+            join([
+                value_hand(&h),
+                fmt_opt(guarded(|| h.hand_rank_value())),
+                fmt_opt(guarded(|| h.hand_rank_value_validated())),
+                fmt_opt(guarded(|| ckc_rs::evaluate::five_cards(arr))),
+                join([
+                    b(h.is_flush()),
+                    b(h.is_straight()),
+                    b(h.is_straight_flush()),
+                    b(h.is_wheel()),
+                    b(ckc_rs::evaluate::is_flush(arr)),
+                    ckc_rs::evaluate::or_rank_bits(arr).to_string(),
+                    h.and_bits().to_string(),
+                    h.or_bits().to_string(),
+                    h.or_rank_bits().to_string(),
+                    h.multiply_primes().to_string(),
+                ]),
+                fmt_opt(guarded(|| rank_str(h.hand_rank()))),
+                fmt_opt(guarded(|| rank_str(h.hand_rank_validated()))),
+            ])
+        }
+        ("ev6", ws) if ws.len() == 6 => {
+            let Some(ws) = u32s(ws) else { return "bad-request".into() };
+            let h = Six::from([ws[0], ws[1], ws[2], ws[3], ws[4], ws[5]]);
+            join([
+                value_hand(&h),
+                fmt_opt(guarded(|| h.hand_rank_value())),
+                fmt_opt(guarded(|| h.hand_rank_value_validated())),
+                fmt_opt(guarded(|| rank_str(h.hand_rank()))),
+            ])
+        }
+        ("ev7", ws) if ws.len() == 7 => {
+            let Some(ws) = u32s(ws) else { return "bad-request".into() };
+            let h = Seven::from([ws[0], ws[1], ws[2], ws[3], ws[4], ws[5], ws[6]]);
+            join([
+                value_hand(&h),
+                fmt_opt(guarded(|| h.hand_rank_value())),
+                fmt_opt(guarded(|| h.hand_rank_value_validated())),
+                fmt_opt(guarded(|| rank_str(h.hand_rank()))),
+            ])
+        }
+        ("val", ws) => match u32s(ws).and_then(|w| H::mk(&w)) {
+            Some(h) => fmt_opt(guarded(|| join([b(h.are_unique()), b(h.contain_blank()), b(h.is_corrupt()), b(h.is_valid())]))),
+            None => "bad-request".into(),
+        },
+        ("sort", ws) => match u32s(ws).and_then(|w| H::mk(&w)) {
+            Some(h) => fmt_opt(guarded(|| format!("{} {}", join(h.sorted()), join(h.sorted_in_place())))),
+            None => "bad-request".into(),
+        },
+        ("shift", ws) => match u32s(ws).and_then(|w| H::mk(&w)) {
+            Some(h) => fmt_opt(guarded(|| join(h.shifted()))),
+            None => "bad-request".into(),
+        },
+        ("rank", [v]) if *v < 65536 => {
+            let r = HandRank::from(*v as u16);
+            format!("{} {} {}", rank_str(r), b(r.is_invalid()), b(r.is_a_valid_hand_rank()))
+        }
+        ("rankdefault", []) => rank_str(HandRank::default()),
+        ("cmp", [x, y]) if *x < 65536 && *y < 65536 => {
+            let p = HandRank::from(*x as u16);
+            let q = HandRank::from(*y as u16);
+            join([
+                ord_code(p.cmp(&q)).to_string(),
+                p.partial_cmp(&q).map(ord_code).map(|c| c.to_string()).unwrap_or("none".into()),
+                b(p < q),
+                b(p <= q),
+                b(p > q),
+                b(p >= q),
+                b(p == q),
+            ])
+        }
+        ("bc", ws) => match u32s(ws).and_then(|w| H::mk(&w)) {
+            Some(h) => h.bc().to_string(),
+            None => "bad-request".into(),
+        },
+        ("bcops", [x, y]) => join([
+            x.fold_in(*y).to_string(),
+            b(x.has(*y)),
+            x.number_of_cards().to_string(),
+            b(x.is_single_card()),
+            b(BC64::is_valid(x)),
+        ]),
+        ("peel", [x, k]) if *k <= 200 => {
+            let mut s = *x;
+            let mut out = Vec::new();
+            for _ in 0..*k {
+                out.push(s.peel());
+            }
+            out.push(s);
+            join(out)
+        }
+        ("two", [x]) => match Two::try_from(*x) {
+            Ok(t) => format!("0 {} {} {}", t.first(), t.second(), <BinaryCard as BC64>::from_two(t)),
+            Err(HandError::NotEnoughCards) => "1".into(),
+            Err(HandError::TooManyCards) => "2".into(),
+            Err(HandError::InvalidBinaryFormat) => "3".into(),
+            Err(e) => format!("err({e:?})"),
+        },
+        ("chen", [x, y]) if *x < (1 << 32) && *y < (1 << 32) => {
+            let t = Two::new(*x as u32, *y as u32);
+            join([
+                fmt_opt(guarded(|| t.chen_formula())),
+                fmt_opt(guarded(|| t.get_gap())),
+                fmt_opt(guarded(|| b(t.is_connector()))),
+                b(t.is_pocket_pair()),
+                b(t.is_suited()),
+                fmt_opt(guarded(|| b(t.is_suited_connector()))),
+                t.high_card().to_string(),
+            ])
+        }
+        ("parse", [n, cps @ ..]) => match text_of(cps) {
+            Some(t) => fmt_opt(guarded(|| parse_hand(*n, &t))),
+            None => "bad-request".into(),
+        },
+        ("idx", cps) => match text_of(cps) {
+            Some(t) => fmt_opt(guarded(|| {
+                let (r, s) = ckc_rs::parse::get_rank_and_suit(&t);
+                format!("{} {} {}", r as u8, s as u8, <CKCNumber as PokerCard>::from_index(&t))
+            })),
+            None => "bad-request".into(),
+        },
+        ("bcidx", cps) => match text_of(cps) {
+            Some(t) => fmt_opt(guarded(|| <BinaryCard as BC64>::from_index(&t))),
+            None => "bad-request".into(),
+        },
+        ("hist", [n, rest @ ..]) if (2..=7).contains(n) && rest.len() >= *n as usize && (rest.len() - *n as usize) % 2 == 0 => {
+            let n = *n as usize;
+            let Some(init) = u32s(&rest[..n]) else { return "bad-request".into() };
+            let Some(mut h) = H::mk(&init) else { return "bad-request".into() };
+            let mut out: Vec<u32> = h.vec();
+            for op in rest[n..].chunks(2) {
+                let Ok(x) = u32::try_from(op[1]) else { return "bad-request".into() };
+                // an out-of-range slot number has no setter: the model's `List.set` leaves the list unchanged
+                let _ = h.set_named(op[0], x);
+                // the state is read three ways and they must agree
+                let a = h.vec();
+                if a != h.named() || a != h.iter_vec() {
+                    return format!("readers-disagree to_arr={:?} named={:?} iter={:?}", a, h.named(), h.iter_vec());
+                }
+                out.extend(a);
+            }
+            join(out)
+        }
+        ("six123", ws) if ws.len() == 6 => {
+            let Some(w) = u32s(ws) else { return "bad-request".into() };
+            join(Six::from_1_and_2_and_3(w[0], Two::new(w[1], w[2]), Three::from([w[3], w[4], w[5]])).to_arr())
+        }
+        ("sevennew", ws) if ws.len() == 7 => {
+            let Some(w) = u32s(ws) else { return "bad-request".into() };
+            join(Seven::new(Two::from(&[w[0], w[1]]), Five::new(w[2], w[3], w[4], w[5], w[6])).to_arr())
+        }
+        ("pick", [n, rest @ ..]) if (*n == 6 || *n == 7) && rest.len() == *n as usize + 5 => {
+            let n = *n as usize;
+            let Some(w) = u32s(&rest[..n]) else { return "bad-request".into() };
+            let row: Vec<u8> = rest[n..].iter().map(|x| (*x).min(255) as u8).collect();
+            let perm = [row[0], row[1], row[2], row[3], row[4]];
+            fmt_opt(guarded(|| {
+                if n == 6 {
+                    join(Six::from([w[0], w[1], w[2], w[3], w[4], w[5]]).five_from_permutation(perm).to_arr())
+                } else {
+                    join(Seven::from([w[0], w[1], w[2], w[3], w[4], w[5], w[6]]).five_from_permutation(perm).to_arr())
+                }
+            }))
+        }
         _ => "bad-request".into(),
     }
 }
